@@ -65,7 +65,46 @@ def reader_side(ctx):
                     if fmt in ('xml', 'ptb', 'jigg_xml') and node.head_is_left != first.head_is_left:
                         ctx.fail('reader_head', f'{fmt}: node {node.cat} has head_is_left={node.head_is_left}, the deriving rule says {first.head_is_left}', data)
             rec(got[0].tree)
+    # several nodes with the SAME children categories but different parent categories, read one after the other in one process
+    # (e.g. ", NP" is NP\\NP by conjunction and NP by punctuation removal): each must get the label of the rule deriving ITS category
     depccg.lang.set_global_language_to('en')
+    from depccg.printer.auto import auto_of
+    inv = [Category.parse(x) for x in gen.inventory('en')]
+    pairs = [(Category.parse(','), Category.parse('NP')), (Category.parse('conj'), Category.parse('NP\\NP')), (Category.parse(','), Category.parse(','))]
+    tries = 0
+    while len(pairs) < (12 if ctx.quick else 60) and tries < 20000:
+        tries += 1
+        x, y = rng.choice(inv), rng.choice(inv)
+        if len({str(r.cat) for r in en.apply_binary_rules(x, y)}) >= 2:
+            pairs.append((x, y))
+    for x, y in pairs:
+        rules = en.apply_binary_rules(x, y)
+        outs = []
+        for r in rules:
+            if str(r.cat) not in [str(o.cat) for o in outs]:
+                outs.append(r)
+        lines, want = [], []
+        for r in outs * 2:       # twice: a memo must not change later answers either
+            t = Tree.make_binary(r.cat, Tree.make_terminal(gen.rand_token(rng, 'en', True, True), x), Tree.make_terminal(gen.rand_token(rng, 'en', True, True), y),
+                                 r.op_string, r.op_symbol, r.head_is_left)
+            lines.append(auto_of(t))
+            want.append(r)
+        fd, path = tempfile.mkstemp(suffix='.auto', dir=ctx.work)
+        os.write(fd, ('ID=1\n' + '\n'.join(lines) + '\n').encode('utf-8'))
+        os.close(fd)
+        try:
+            got = list(read_auto(path))
+        except Exception:      # noqa
+            got = []
+        os.unlink(path)
+        ctx.case(('same-children', str(x), str(y)), nontrivial=len(outs) > 1)
+        ctx.count('reader:same_children_sequences')
+        for g_, r in zip(got, want):
+            node = g_.tree
+            if (node.op_string, node.op_symbol) != (r.op_string, r.op_symbol):
+                ctx.fail('reader_label', f'auto: node {node.cat} over children ({x}, {y}) is labelled {node.op_string!r}/{node.op_symbol!r}; the rule deriving it is {r.op_string!r}/{r.op_symbol!r} '
+                         '(another node with the same children but another category was read before it)',
+                         {'format': 'auto', 'lang': 'en', 'node': str(node.cat), 'children': [str(x), str(y)], 'label': node.op_string})
     ctx.coq_cases('guess', G.PRE, cases, chunk=150)
     ctx.stats['guess_cases'] = len(cases)
 
